@@ -55,6 +55,9 @@ func main() {
 			jobs = append(jobs, job(&lockh.LeaseScenario{Kind: "lapse", Lease: L, DiePhase: ph}, vsched.Config{P: pl, Preempt: fine, MaxSteps: 60000}))
 		}
 		jobs = append(jobs, job(&lockh.LeaseScenario{Kind: "lapse", Lease: L, DiePhase: -1}, vsched.Config{P: pl, Preempt: fine, MaxSteps: 60000}))
+		for _, ph := range []float64{0, 0.5} {
+			jobs = append(jobs, job(&lockh.LeaseScenario{Kind: "lapse", Lease: L, DiePhase: ph, TwoWaiters: true}, vsched.Config{P: pl - 1, Preempt: fine, MaxSteps: 60000}))
+		}
 		for _, same := range []bool{true, false} {
 			jobs = append(jobs, job(&lockh.LeaseScenario{Kind: "diesout", Lease: L, SameLocker: same}, vsched.Config{P: pd, Preempt: fine, MaxSteps: 60000}))
 			// a renewal in flight during Unlock that fails transiently must not re-arm anything for the finished tenure
@@ -69,6 +72,6 @@ func main() {
 	sdrv.Main(run, jobs, sdrv.Options{
 		Budget: budget,
 		Bounds: map[string]any{"leases": []string{"30ms", "10s", "100s (> the 30s idle timeout of the timer pool)"}, "P_kept": pk + 1, "P_kept_with_fault": pf, "F": 1, "P_lapse": pl, "P_diesout": pd},
-		Rule:   "virtual time, maximal-progress clock, real kvlock+timeout+inmem. handover: a contender that has been waiting for 0.3 / 0.8 / 1.6 leases takes over and holds for 2.5 leases under the same record/TryLock probes (its record must be fresh). kept: holder holds 3.5 leases, a contender of another provider waits in LockWithCtx the whole time, a prober of a third provider checks the record (exists, ExpiresAt > now) and TryLocks every quarter lease; with renewal faults every renewal call may be lost (request or reply), budget F. lapse: the holder's process dies (its storage calls vanish) at 6 scripted phases of the renewal cycle and at any scheduling point (pseudo thread); the waiting contender must hold the lock within lease + one renewal period. diesout: Unlock exactly when the renewal timer fires (every order within the preemption bound), then a second tenure on the same / another Locker; at most one renewal attempt reaches the storage after Unlock returned, none succeeds, and at quiescence no timer is armed and every timer goroutine has exited",
+		Rule:   "virtual time, maximal-progress clock, real kvlock+timeout+inmem. handover: a contender that has been waiting for 0.3 / 0.8 / 1.6 leases takes over and holds for 2.5 leases under the same record/TryLock probes (its record must be fresh). kept: holder holds 3.5 leases, a contender of another provider waits in LockWithCtx the whole time, a prober of a third provider checks the record (exists, ExpiresAt > now) and TryLocks every quarter lease, a goroutine of the holder's own process TryLocks the same Locker object every third of a lease; with renewal faults every renewal call may be lost (request or reply), budget F. lapse (also with a first waiter that gives up a quarter lease after the death while a second one stays): the holder's process dies (its storage calls vanish) at 6 scripted phases of the renewal cycle and at any scheduling point (pseudo thread); the waiting contender must hold the lock within lease + one renewal period. diesout: Unlock exactly when the renewal timer fires (every order within the preemption bound), then a second tenure on the same / another Locker; at most one renewal attempt reaches the storage after Unlock returned, none succeeds, and at quiescence no timer is armed and every timer goroutine has exited",
 	})
 }
